@@ -864,9 +864,27 @@ class _MatchDesugar(ast.NodeTransformer):
         return out
 
 
+class _MapOverDisplay(ast.NodeTransformer):
+    """`map(f, (a, b))` / `map(f, (a, b), (c, d))` unpacked at once is the display `(f(a), f(b))` / `(f(a, c), f(b, d))`."""
+    def visit_Assign(self, node: ast.Assign):
+        self.generic_visit(node)
+        v = node.value
+        if len(node.targets) == 1 and isinstance(node.targets[0], (ast.Tuple, ast.List)) and isinstance(v, ast.Call) and isinstance(v.func, ast.Name) \
+                and v.func.id == "map" and len(v.args) >= 2 and not v.keywords and isinstance(v.args[0], ast.Name) \
+                and all(isinstance(a, (ast.Tuple, ast.List)) and not any(isinstance(e, ast.Starred) for e in a.elts) for a in v.args[1:]) \
+                and len({len(a.elts) for a in v.args[1:]}) == 1 and len(v.args[1].elts) == len(node.targets[0].elts):
+            n = len(v.args[1].elts)
+            calls = [ast.Call(func=copy.deepcopy(v.args[0]), args=[copy.deepcopy(a.elts[i]) for a in v.args[1:]], keywords=[]) for i in range(n)]
+            node.value = ast.copy_location(ast.Tuple(elts=calls, ctx=ast.Load()), v)
+            ast.fix_missing_locations(node)
+        return node
+
+
 def desugar_match(trees: Dict[str, ast.Module]) -> int:
     n = 0
     for tree in trees.values():
+        if any(isinstance(x, ast.Call) and isinstance(x.func, ast.Name) and x.func.id == "map" for x in ast.walk(tree)):
+            _MapOverDisplay().visit(tree)
         if any(isinstance(x, ast.Match) for x in ast.walk(tree)):
             _MatchDesugar().visit(tree)
             ast.fix_missing_locations(tree)
